@@ -9,15 +9,17 @@
                               capabilities, and the capabilities of a True-typed expression hold unconditionally
      c03_impossible_partial   an expression typed False never evaluates to true
      c03_policy_sound_partial an accepted condition (Success / Irrelevant) evaluates to a boolean or a permitted error
-   "partial" = the syntactic fragment TypecheckProofs3.in_fragment:
+     c03_strict_in_permissive_partial   strict-accepted => permissive-accepted with the same type and capabilities
+   "partial" = the syntactic fragment TypecheckMain.in_fragment:
      literals, variables, && and || with full capability flow (union / intersection, short-circuit singleton
-     typing), !, ==, if-then-else with singleton short-circuit typing and capability flow (branches boolean-rooted),
+     typing), !, ==, if-then-else with singleton short-circuit typing and capability flow (branches: any boolean-rooted form of the fragment),
      `has` and `.` on access paths (variable followed by attribute selections) over records AND entities:
      required / optional attributes, optional ones behind capabilities, nested records, entity-typed attributes,
-     open / closed types, absent entities; integer arithmetic (+, -, *, unary -: value or overflow); like; is.
+     open / closed types, absent entities; integer arithmetic (+, -, *, unary -: value or overflow); < and <=
+     (longs, datetime, duration); like; is; isEmpty, contains, containsAll, containsAny.
    Not in the fragment (see notes/C03.md): attribute access on non-path expressions, non-boolean `if` branches,
-   <, <=, tags, in, contains*, isEmpty, extension calls, set and record literals. *)
-From Cedar Require Import Typecheck ConformProofs ExprEq TypecheckProofs TypecheckProofs2 TypecheckProofs3.
+   tags, in, extension calls, set and record literals. *)
+From Cedar Require Import Typecheck ConformProofs ExprEq TypecheckProofs TypecheckProofs2 TypecheckProofs3 TypecheckProofs4 TypecheckIf TypecheckMain TypecheckModes TypecheckSimple TypecheckSub.
 
 Theorem c03_sound_partial :
   forall m sch env q es,
@@ -47,6 +49,31 @@ Theorem c03_policy_sound_partial :
 Proof. exact tc_env_sound. Qed.
 Print Assumptions c03_policy_sound_partial.
 
+(* both modes are one function: on the proved fragment everything strict typechecking accepts is accepted by
+   permissive typechecking, with the same type and the same capabilities.  "partial" = in_fragment. *)
+Theorem c03_strict_in_permissive_partial :
+  forall sch env e, in_fragment e = true ->
+  forall cs r, tc Strict sch env cs e = Some r -> tc Permissive sch env cs e = Some r.
+Proof. exact strict_in_permissive_fragment. Qed.
+Print Assumptions c03_strict_in_permissive_partial.
+
+(* non-vacuity: the declarative judgement `Simple` (TypecheckSimple.v: declared accesses, == / < at equal scalar
+   types, has, !, ||, and the documented guard idioms `e has a && ..`, `if e has a then .. else ..`, nested
+   `e has a && e.a has b && ..`; it does not mention tc) implies acceptance by STRICT typechecking *)
+Theorem c03_accepts_guarded :
+  forall sch env cs e, Simple sch env cs e -> exists x c, tc Strict sch env cs e = Some (TBool x, c).
+Proof. exact simple_accepted. Qed.
+Print Assumptions c03_accepts_guarded.
+
+(* the subtype relation of types.rs is sound over ALL types (nested records, sets, entity LUBs, singleton
+   booleans), in both modes: a value of a type inhabits every well-formed (duplicate-free record keys) supertype.
+   (First half of the lub/subtype soundness needed for `if` with arbitrary branches; the upper-bound property of
+   `lub` on its structural record branch is not proved yet.) *)
+Theorem c03_subty_sound :
+  forall a m b v, wf_ty b = true -> subty m a b = true -> TypeConforms v a -> TypeConforms v b.
+Proof. exact subty_sound. Qed.
+Print Assumptions c03_subty_sound.
+
 (* the store hypothesis is what the implementation-side checker (model: Conform.conf_entity) establishes *)
 Theorem c03_store_ok_from_checker :
   forall sch es, schema_wf sch = true ->
@@ -73,6 +100,27 @@ Example c03_accepts_guarded_example :
   tc Strict ex_sch ex_env [] (If ex_phas ex_puse (Lit (PBool false))) = Some (TBool BAny, []) /\
   tc Strict ex_sch ex_env [] (And ex_phas ex_puse) = Some (TBool BAny, [cap_attr (Var Principal) (s2str "o")]).
 Proof. repeat split; vm_compute; reflexivity. Qed.
+
+Example c03_simple_example :
+  Simple ex_sch ex_env [] (And ex_phas ex_puse) /\
+  Simple ex_sch ex_env [] (If ex_has ex_use (Lit (PBool false))).
+Proof.
+  split.
+  - eapply S_guard_and with (tp := ty_entity ex_user) (t := TLong) (req := false);
+      [apply A_var; reflexivity|vm_compute; reflexivity|vm_compute; reflexivity|].
+    eapply S_eq with (t := TLong); [| |reflexivity].
+    + eapply A_attr with (tp := ty_entity ex_user) (req := false);
+        [apply A_var; reflexivity|vm_compute; reflexivity|vm_compute; reflexivity|right; vm_compute; reflexivity].
+    + eapply A_attr with (tp := ty_entity ex_user) (req := true);
+        [apply A_var; reflexivity|vm_compute; reflexivity|vm_compute; reflexivity|left; reflexivity].
+  - eapply S_guard_if with (tp := ex_ctx) (t := TLong) (req := false);
+      [apply A_var; reflexivity|vm_compute; reflexivity|vm_compute; reflexivity| |apply S_bool].
+    eapply S_eq with (t := TLong); [| |reflexivity].
+    + eapply A_attr with (tp := ex_ctx) (req := false);
+        [apply A_var; reflexivity|vm_compute; reflexivity|vm_compute; reflexivity|right; vm_compute; reflexivity].
+    + eapply A_attr with (tp := ex_ctx) (req := true);
+        [apply A_var; reflexivity|vm_compute; reflexivity|vm_compute; reflexivity|left; reflexivity].
+Qed.
 
 Example c03_rejects_unguarded_example :
   tc Strict ex_sch ex_env [] ex_use = None /\ tc Strict ex_sch ex_env [] (Or ex_has ex_use) = None /\
